@@ -1,6 +1,7 @@
 import PyxisVerif.Props.C18
 #print axioms PyxisVerif.C18.parse_print_tokens_any
 #print axioms PyxisVerif.C18.parse_print_tokens
+#print axioms PyxisVerif.C18.parse_type_semi
 #print axioms PyxisVerif.C18.lex_render_partial
 #print axioms PyxisVerif.C18.parse_print
 #print axioms PyxisVerif.C18.parse_print_no_trailing
